@@ -89,10 +89,11 @@ JoinOnce(D, O, rerunSeen) ==
      /\ \A u \in Rng(O.tk) : (u.wf = t.wf /\ u.name = t.name) => u.sid = t.sid
      /\ (D.tasks[t.name].retry = 0 /\ D.tasks[t.name].items = -1 /\ ~rerunSeen)
            => Cardinality(KidsAx(O, t.sid)) + Cardinality(KidsWf(O, t.sid)) <= 1
-\* a task that is not a start task exists only because a completed task routed to it
-Caused(D, O) ==
-  \A t \in Rng(O.tk) : (D.type = "direct" /\ Rng(D.inbound[t.name]) # {}) =>
-     \E i \in TasksOf(O, t.wf) : t.name \in Rng(i.next) /\ (Done(i.state) \/ i.state = "RUNNING")
+\* a task that is not a start task comes into existence only because a completed task routed to it
+\* (judged at the step that creates it: what happens to the routing task later is other clauses' business)
+Caused(D, P, O) ==
+  \A t \in Rng(O.tk) : (D.type = "direct" /\ Rng(D.inbound[t.name]) # {} /\ ~Has(Rng(P.tk), t.sid)) =>
+     \E i \in TasksOf(O, t.wf) : t.name \in Rng(i.next) /\ Done(i.state)
 \* reverse workflows
 ReqGate(D, P, O) ==
   \A t \in Rng(O.tk) :
